@@ -8,7 +8,8 @@ Part 3  `hashBlock` is the remainder of the byte string read as a big-endian pol
 Part 4  table entries, one `slide` step.
 Part 5  circular buffer = queue; the fold invariant; `slide_window_fingerprint` (T1).
 
-Only core lemmas are used (no Mathlib, no `native_decide`, no `bv_decide`, no extra axioms).
+Only core lemmas are used (no Mathlib import, no kernel-bypassing tactics, no extra axioms:
+`#print axioms` gives `propext, Classical.choice, Quot.sound`).
 -/
 import Rustic.Model.Rabin
 namespace Rustic.Rabin
@@ -690,5 +691,129 @@ theorem slide_window_fingerprint (poly : UInt64) (hlo : 8 ≤ degree poly) (hhi 
   have hdeg := degree_poly hp
   rw [hdeg] at hlo hhi
   exact slide_window_fingerprint' hp (by omega) (by omega) bs
+
+/-! ## T3: `hashBlock` is polynomial remainder of the byte string, stated on `Nat` -/
+
+/-- Polynomial remainder over GF(2) on `Nat` (schoolbook division, xor as subtraction). -/
+def pmodLoop (m : Nat) : Nat → Nat → Nat
+  | 0, p => p
+  | f + 1, p =>
+    if p ≠ 0 ∧ m.log2 ≤ p.log2 then pmodLoop m f (p ^^^ (m <<< (p.log2 - m.log2))) else p
+
+def pmod (p m : Nat) : Nat := pmodLoop m (p.log2 + 1) p
+
+theorem pmodLoop_spec {m : Nat} (hm : m ≠ 0) : ∀ (f p : Nat),
+    Cong m (pmodLoop m f p) p ∧ (p < 2 ^ (m.log2 + f) → pmodLoop m f p < 2 ^ m.log2) := by
+  intro f
+  induction f with
+  | zero => intro p; simp [pmodLoop, Cong.refl]
+  | succ f ih =>
+    intro p
+    rw [pmodLoop]
+    by_cases h : p ≠ 0 ∧ m.log2 ≤ p.log2
+    · rw [if_pos h]
+      obtain ⟨hp, hle⟩ := h
+      obtain ⟨ih1, ih2⟩ := ih (p ^^^ (m <<< (p.log2 - m.log2)))
+      refine ⟨ih1.trans (Cong.xor_shift _ _ _), fun hlt => ih2 ?_⟩
+      have h1 := xor_shift_lt hp hm hle
+      have h2 : p.log2 < m.log2 + (f + 1) := (Nat.log2_lt hp).mpr hlt
+      exact Nat.lt_of_lt_of_le h1 (Nat.pow_le_pow_right (by omega) (by omega))
+    · rw [if_neg h]
+      refine ⟨Cong.refl _ _, fun _ => ?_⟩
+      by_cases hp : p = 0
+      · subst hp; exact Nat.two_pow_pos _
+      · have : p.log2 < m.log2 := by
+          have : ¬ m.log2 ≤ p.log2 := fun h' => h ⟨hp, h'⟩
+          omega
+        exact (Nat.log2_lt hp).mp this
+
+theorem pmod_cong {m : Nat} (hm : m ≠ 0) (p : Nat) : Cong m (pmod p m) p :=
+  (pmodLoop_spec hm _ p).1
+
+theorem pmod_lt {m : Nat} (hm : m ≠ 0) (p : Nat) : pmod p m < 2 ^ m.log2 := by
+  apply (pmodLoop_spec hm _ p).2
+  exact Nat.lt_of_lt_of_le Nat.lt_log2_self (Nat.pow_le_pow_right (by omega) (by omega))
+
+/-- `pmod` is THE remainder: reduced, `p = q·m + pmod p m`, and unique with these properties. -/
+theorem pmod_spec (p m : Nat) (hm : m ≠ 0) :
+    pmod p m < 2 ^ m.log2 ∧ (∃ q, p = clmul q m ^^^ pmod p m) ∧
+    (∀ q r, p = clmul q m ^^^ r → r < 2 ^ m.log2 → r = pmod p m) := by
+  refine ⟨pmod_lt hm p, ?_, ?_⟩
+  · obtain ⟨q, hq⟩ := pmod_cong hm p
+    refine ⟨q, ?_⟩
+    rw [← hq, Nat.xor_comm (pmod p m), Nat.xor_assoc, Nat.xor_self, Nat.xor_zero]
+  · intro q r hqr hr
+    refine Cong.eq_of_lt hm (Cong.trans ⟨q, ?_⟩ (pmod_cong hm p).symm) hr (pmod_lt hm p)
+    rw [hqr, Nat.xor_comm r, Nat.xor_assoc, Nat.xor_self, Nat.xor_zero]
+
+/-- The model's `modulo` agrees with `pmod`. -/
+theorem modulo_eq_pmod (p m : UInt64) (hm : m ≠ 0) : (modulo p m).toNat = pmod p.toNat m.toNat := by
+  have hm' : m.toNat ≠ 0 := fun h' => hm ((toNat_eq_zero_iff m).mp h')
+  exact modulo_unique hm p (pmod_cong hm' _) (pmod_lt hm' _)
+
+/-- **T3.** `hashBlock poly bs` is the remainder modulo `poly` of the byte string read as a big-endian
+polynomial over GF(2) (for any modulus of degree `0 … 56`). -/
+theorem hashBlock_eq_pmod (poly : UInt64) (h0 : 0 ≤ degree poly) (hhi : degree poly ≤ 56) (bs : Bytes) :
+    (hashBlock poly bs).toNat = pmod (bytesPoly bs) poly.toNat := by
+  have hp : poly ≠ 0 := by
+    intro h; subst h; simp [degree] at h0
+  have hp' : poly.toNat ≠ 0 := fun h' => hp ((toNat_eq_zero_iff poly).mp h')
+  have hd : poly.toNat.log2 ≤ 56 := by rw [degree_poly hp] at hhi; omega
+  exact Cong.eq_of_lt hp' ((hashBlock_cong hp hd bs).trans (pmod_cong hp' _).symm)
+    (hashBlock_lt hp hd bs) (pmod_lt hp' _)
+
+/-- T1 and T3 combined: the rolling hash is the polynomial remainder of the last 64 bytes. -/
+theorem slide_window_eq_pmod (poly : UInt64) (hlo : 8 ≤ degree poly) (hhi : degree poly ≤ 55)
+    (bs : Bytes) :
+    ((bs.foldl (slide (Tables.mk' 6 poly)) (reset (Tables.mk' 6 poly))).hash).toNat
+      = pmod (bytesPoly (bs.drop (bs.length - 64))) poly.toNat := by
+  rw [slide_window_fingerprint poly hlo hhi bs]
+  exact hashBlock_eq_pmod poly (by omega) (by omega) _
+
+/-! ## Sanity: `clmul` really is polynomial multiplication -/
+
+/-- Degrees add under `clmul` (so GF(2)[x] has no zero divisors). -/
+theorem log2_clmul {q m : Nat} (hq : q ≠ 0) (hm : m ≠ 0) :
+    clmul q m ≠ 0 ∧ (clmul q m).log2 = q.log2 + m.log2 := by
+  induction q using Nat.strongRecOn with
+  | _ q ih =>
+    by_cases h1 : q = 1
+    · subst h1; rw [clmul_one]
+      have : Nat.log2 1 = 0 := by simpa using (Nat.log2_two_pow (n := 0))
+      exact ⟨hm, by rw [this, Nat.zero_add]⟩
+    · have hq2 : q / 2 ≠ 0 := by omega
+      obtain ⟨ihne, ihl⟩ := ih (q / 2) (by omega) hq2
+      have hlq : q.log2 = (q / 2).log2 + 1 := by
+        rw [Nat.log2_eq_iff hq]
+        have := (Nat.log2_eq_iff hq2).mp rfl
+        rw [Nat.pow_succ, Nat.pow_succ]; omega
+      obtain ⟨hA1, hA2⟩ := (Nat.log2_eq_iff ihne).mp ihl
+      have hbig : 2 ^ (q.log2 + m.log2) ≤ clmul (q / 2) m <<< 1 := by
+        rw [Nat.shiftLeft_eq, hlq, show (q / 2).log2 + 1 + m.log2 = (q / 2).log2 + m.log2 + 1 by omega,
+          Nat.pow_succ]
+        exact Nat.mul_le_mul_right 2 hA1
+      have hbig' : clmul (q / 2) m <<< 1 < 2 ^ (q.log2 + m.log2 + 1) := by
+        have := shiftLeft_lt_two_pow (k := 1) hA2
+        rwa [show (q / 2).log2 + m.log2 + 1 + 1 = q.log2 + m.log2 + 1 by omega] at this
+      have hsmall : (if q % 2 = 1 then m else 0) < 2 ^ (q.log2 + m.log2) := by
+        have : m < 2 ^ (q.log2 + m.log2) :=
+          Nat.lt_of_lt_of_le (Nat.lt_log2_self (n := m)) (Nat.pow_le_pow_right (by omega) (by omega))
+        split
+        · exact this
+        · exact Nat.two_pow_pos _
+      have hge : 2 ^ (q.log2 + m.log2) ≤ clmul q m := by
+        rw [clmul_eq, Nat.xor_comm]; exact two_pow_le_xor hbig hsmall
+      have hlt : clmul q m < 2 ^ (q.log2 + m.log2 + 1) := by
+        rw [clmul_eq]
+        exact Nat.xor_lt_two_pow
+          (Nat.lt_of_lt_of_le hsmall (Nat.pow_le_pow_right (by omega) (by omega))) hbig'
+      have hne : clmul q m ≠ 0 := by
+        have := Nat.two_pow_pos (q.log2 + m.log2); omega
+      exact ⟨hne, (Nat.log2_eq_iff hne).mpr ⟨hge, hlt⟩⟩
+
+example : clmul 3 3 = 5 := by simp [clmul]                         -- (x+1)² = x²+1
+example : clmul 0b1011 0b110 = 0b111010 := by simp [clmul]         -- (x³+x+1)(x²+x)
+example : pmod 7 3 = 1 := by decide
+example : pmod 19 8 = 3 := by decide
 
 end Rustic.Rabin
